@@ -27,12 +27,17 @@ def _mock(which=1):
         return C()
 
     class A(AtomicData):
-        # rates vary with temperature and density so that every profile point has its own balance
+        # rates vary with temperature and density so that every profile point has its own balance;
+        # like OpenADAS, every request is answered from what the provider serves at that moment (self.tables)
+        tables = which
+
         def ionisation_rate(self, ion, charge):
+            which = self.tables
             return mk(R.IonisationRate, lambda ne, te: which * (1 + (charge + ion.atomic_number) % 3) * UNIT * (te / 100.0) ** 0.5)
         def recombination_rate(self, ion, charge):
             return mk(R.RecombinationRate, lambda ne, te: (1 + (2 * charge + ion.atomic_number) % 3) * UNIT * (100.0 / te) ** 0.5 * (1 + ne / 1e20))
         def thermal_cx_rate(self, de, dq, re, rq):
+            which = self.tables
             return mk(R.ThermalCXRate, lambda ne, te: (2 + (rq * rq) % 3 + 3 * (which - 1)) * UNIT)
     return A()
 
@@ -99,6 +104,10 @@ def replay(rec, ctx):
     for i, c in enumerate(calls):
         fr = c.get("front", "direct")
         ad = providers[c.get("provider", 1)]
+        if c["entry"] == "repository_update":
+            ad.tables = c["tables"]
+            continue
+        reference = _mock(c.get("tables", c.get("provider", 1)))       # a provider created afresh, serving the same tables
         name = f"{'' if fr == 'direct' else fr + '_'}{c['entry']}[{c['rep']},{'donor' if c['donor'] == 'shared' else 'no-donor'}]"
         scale2 = None
         prev = " after " + ", ".join(f"{x['entry']}[{x['rep']}]" for x in calls[:i]) if i else ""
@@ -139,7 +148,7 @@ def replay(rec, ctx):
                 bad("modifies-the-callers-array", f"{nm}: {arr.tolist()} vs {orig}")
         # the same call on its own, fresh scalar inputs point by point
         q = scale2 or 1.0
-        ref = [_vec(_call(IB, E, ad, c, NE[k] * q, TE[k] * q, ND[k] * q, NEL[k] * q), 0) for k in range(3)]
+        ref = [_vec(_call(IB, E, reference, c, NE[k] * q, TE[k] * q, ND[k] * q, NEL[k] * q), 0) for k in range(3)]
         scale = 1.0 if c["entry"] == "fractional_abundance" else max(max(r) for r in ref)
         if any(abs(a - b) > 1e-7 * scale for g, r in zip(got, ref) for a, b in zip(g, r)):
             bad("result-depends-on-earlier-calls-or-representation", f"{got} vs the same call on fresh scalar inputs {ref}{prev}")
@@ -166,10 +175,18 @@ def run_part(v):
     if len(seqs) > cap:
         import random
         seqs = random.Random(v.seed).sample(seqs, cap)
+    res2 = core.run_tlc("IonSession", CFG.format(depth=3).replace("SPECIFICATION Spec", "SPECIFICATION UCUSpec"), workers=1, seed=v.seed, timeout=1800, tag="C09-session-ucu")
+    core.tlc_must_pass(res2, "IonSession/UCU")
+    v.add_tlc(res2, "IonSession/call-update-call")
+    ucu = [r for r in res2.records if "calls" in r and len(r["calls"]) == 3]
+    if len(ucu) < 50:
+        raise core.MachineryError("vacuity: call-update-call sequences missing")
+    seqs = seqs + ucu
     fronts = {}
     for r in seqs:
         for c in r["calls"]:
-            fronts[c["front"]] = fronts.get(c["front"], 0) + 1
+            if c["entry"] != "repository_update":
+                fronts[c["front"]] = fronts.get(c["front"], 0) + 1
     if len(seqs) < 300 or set(fronts) != {"direct", "interpolators1d", "interpolators2d", "equilibrium_map3d"}:
         raise core.MachineryError(f"vacuity: too few call sequences / front-ends missing {fronts}")
     v.notes["session_calls_per_front_end"] = fronts
